@@ -69,6 +69,8 @@ for where, how, code, depth in itertools.product(('started', 'handler', 'generat
             app.run()
         except SystemExit as e:
             got = ('SystemExit', e.code)
+        except BaseException as e:
+            got = ('raised', type(e).__name__, str(e)[:80])
         want = 'returned' if code is None else ('SystemExit', code)
         if got != want:
             problems.append('cycle %d: run() %s, expected %s' % (cycle, got, want))
